@@ -12,6 +12,12 @@ references everywhere) and corpus schemas (tests/test_cases/examples) are re-arr
   * HISTORIES of storage operations on one schema object: shallow copy, maps.copy()+build, pickle round trip,
     clear()+build() (once, twice, after/before a pickle or a copy), a rebuild triggered by registering one more
     namespace,
+  * types whose attribute wildcard is COMPUTED from shared components (several referenced attribute groups, a local
+    xs:anyAttribute, the base type under an extension; every form of namespace constraint incl. the 1.1 ones) and
+    element wildcards in global model groups shared by several types; an exhaustive family of all ordered pairs of
+    constraint forms in three declaration orders; a PURITY MONITOR that fingerprints every global component when its
+    constructor returns, at the end of the build and after validation (a constructor must not change a component
+    that is already built),
   * components that are resolved through a maps-level REGISTRY of XsdGlobals beside the six staged maps
     (harness/lib_c09reg.py): xs:key/xs:unique referred by an xs:keyref (or an XSD 1.1 `ref`) declared on another
     element (key on the same element / a nested local element / a local element of a named type / of a global
@@ -53,7 +59,7 @@ from typing import Any, Optional
 
 from harness.core import Ctx, Driver, REPO, VERIF
 from harness.lib_schemagen import Schema, HEAD, TAIL, NSA, NSB, TNS
-from harness.lib_c09reg import Features, Epochs, registry_view
+from harness.lib_c09reg import Features, Epochs, registry_view, fingerprint, diff_fp
 
 FINDINGS_FILE = VERIF / 'notes' / 'findings' / 'C09.json'
 PROPS = 'XsVerif.Props.C09'
@@ -68,10 +74,17 @@ RULE = ('a case = (schema, arrangement or step of a storage history, probe set) 
         'prefix).  Histogram tags: registry:* = which maps-level registry the schema exercises (identity/<where the '
         'referenced key is declared>, substitution-group, notation, types-by-xsi:type, types-by-alternative), '
         'probe[<purpose>]:valid|invalid = verdict of the dedicated probe on the base arrangement, storage:<operation>'
-        '[/after-n-rebuilds], history-step:generation-n = registry states compared with the model, processor:*')
+        '[/after-n-rebuilds], history-step:generation-n = registry states compared with the model, processor:*, '
+        'wildcard-form:* / wildcard-combination:* = constraint forms and the ways (intersection of group refs, local '
+        'anyAttribute, union by extension, nested groups, shared model groups) in which the generated types compute '
+        'their wildcards from shared components, wildcard-pair:* = exhaustive family of ordered pairs of forms, '
+        'purity-monitor:components-fingerprinted')
 TRUSTED = ['component constructors are modelled by the free interpretation (a component = tree of what its '
-           'constructor looked up); their purity is monitored (deps observed in one arrangement must predict '
-           'the trace of every other arrangement), not proved',
+           'constructor looked up); their purity is monitored, not proved: (1) the deps observed in one arrangement '
+           'must predict the trace of every other arrangement, (2) every global component is fingerprinted (declared '
+           'content of it and of the anonymous components reachable from it; shared values described in place) when '
+           'its constructor returns, at the end of the build and after the probes were validated: a change is reported '
+           'as a failing input naming the component (hypothesis PureCtor of pure_ctors_order_independent)',
            'urlsplit / pathlib / the file system: only the dot-segment normalisation of joined paths is modelled',
            'copy / pickle are exercised on the real code; of a rebuild the registries and their clearing are modelled '
            '(Model/Rebuild.lean), objects being abstracted to (declaration, generation)']
@@ -96,7 +109,13 @@ class Recorder:
     active: Optional['Recorder'] = None
     installed = False
 
-    def __init__(self) -> None:
+    def __init__(self, monitor: bool = False) -> None:
+        # purity monitor: fingerprint of every global right after its constructor returned / at the end of
+        # GlobalMaps.build / after the probes were validated
+        self.monitor = monitor
+        self.fp1: dict = {}          # name -> (component, shallow fingerprint at the exit of its constructor)
+        self.fp2: dict = {}          # name -> (component, deep fingerprint at the end of the build)
+        self.mutations: list = []
         self.loads: list = []        # (map, name, elem, schema, dup_error)
         self.events: list = []       # (map, tag, name)
         self.deps: dict = {}         # (id(map), qname) -> [names]
@@ -161,6 +180,8 @@ class Recorder:
                 raise
             r.stack.pop()
             r.events.append((root, 'exit', name))
+            if r.monitor and res.schema.meta_schema is not None:
+                r.fp1[name] = (res, fingerprint(res, False))
             return res
 
         def gbuild(self, schemas):
@@ -169,10 +190,33 @@ class Recorder:
                 ms = sorted(self, key=lambda m: KINDS[type(m).__name__])
                 r.snap.append((self, [list(m._staging) for m in ms],
                                [{q: v for q, v in m._staging.items()} for m in ms]))
-            return o_build(self, schemas)
+            res = o_build(self, schemas)
+            if r is not None and r.monitor:
+                r.end_of_build()
+            return res
 
         SM.load, SM.__getitem__, SM._build_global, GM.build = load, getitem, build_global, gbuild
         cls.installed = True
+
+    def end_of_build(self) -> None:
+        for name, (comp, fp) in self.fp1.items():
+            now = fingerprint(comp, False)
+            if now != fp:
+                self.mutations.append({'component': name, 'class': type(comp).__name__,
+                                       'phase': 'between the return of its constructor and the end of the build',
+                                       'change': diff_fp(fp, now)})
+            self.fp2[name] = (comp, fingerprint(comp, True))
+
+    def after_validation(self) -> list:
+        out = []
+        for name, (comp, fp) in self.fp2.items():
+            now = fingerprint(comp, True)
+            if now != fp:
+                out.append({'component': name, 'class': type(comp).__name__,
+                            'phase': 'after the end of the build (checks of the built maps, validation of the probes)',
+                            'change': diff_fp(fp, now)})
+                self.fp2[name] = (comp, now)
+        return out
 
     def __enter__(self) -> 'Recorder':
         Recorder.install()
@@ -397,9 +441,26 @@ def observe(schema: Any, probes: list[str]) -> dict:
 
 def build_real(main_source: str, validation: str = 'strict', cls: str = 'XMLSchema10') -> tuple[Any, dict]:
     import xmlschema
-    with Recorder() as rec:
+    with Recorder(monitor=True) as rec:
         schema = getattr(xmlschema, cls)(main_source, validation=validation)
+    LAST['rec'] = rec
     return schema, rec.view(schema.maps)
+
+
+LAST: dict = {}
+
+
+def purity(ctx: Ctx, case: dict, extra: dict) -> None:
+    """the purity monitor of the last build_real: constructors must not change a component that is already built"""
+    rec = LAST.get('rec')
+    if rec is None:
+        return
+    muts = rec.mutations + rec.after_validation()
+    rec.mutations = []
+    ctx.count('purity-monitor:components-fingerprinted', len(rec.fp2))
+    for m in muts[:3]:
+        ctx.failure('constructors are not pure: a component that was already built was changed in place (' + m['component'] + ')',
+                    dict(case, purity=True, **extra), m)
 
 
 def segs(path: str) -> list[str]:
@@ -815,6 +876,8 @@ def one_schema(ctx: Ctx, drv: Optional[Driver], batch: Batch, idx: int, tmp: str
             ctx.count('arrangement rejected')
             continue
         obs = observe(schema, probes)
+        purity(ctx, case, {'base_files': texts0 or written['files'], 'files': written['files'], 'probes': probes,
+                           'open': arr['open']})
         if base_obs is None:
             base_obs, base_view, texts0 = obs, view, written['files']
             verdicts = {bool(p['errors']) for p in obs['probes']}
@@ -1071,21 +1134,7 @@ REGISTRY_FAMILY = [
 def known_match(case: dict, detail: dict) -> Optional[str]:
     """`detail` = the difference between the original document and one arrangement of it (diff_obs).  Returns the
     id of the listed finding of notes/findings/C09.json that explains exactly this difference, else None."""
-    if not isinstance(detail, dict) or detail.get('what') != 'errors of a probe instance differ':
-        return None
-    fam = case.get('corpus', '')
-
-    def only_difference(needle: str) -> bool:
-        a, b = detail['base'], detail['variant']
-        extra = [e for e in a if e not in b] + [e for e in b if e not in a]
-        return bool(extra) and all(len(e) == 3 and needle in e[2] and 'not allowed' in e[2] for e in extra)
-    if fam == 'registry-family: ' + F1_NAME and detail.get('probe') == 0 and only_difference("'{urn:y}a'"):
-        # C09-F1: whether the wildcard of type Other admits urn:y depends on Ext having been built before it
-        return 'C09-F1'
-    if fam == 'registry-family: ' + F2_NAME and case.get('kind') == 'split2' and detail.get('probe') in (0, 1) \
-            and only_difference("'{urn:h}g"):
-        # C09-F2: a global attribute declared in ANOTHER document of the same namespace is not "##defined"
-        return 'C09-F2'
+    # (C09-F1 and C09-F2 are fixed — c02201c, a59bff1 —: no rule any more, a recurrence is a violation)
     return None
 
 
@@ -1114,6 +1163,69 @@ def registry_family(ctx: Ctx, tmp: str, batch: Optional[Batch] = None) -> None:
         arrangements_of(ctx, d, Path(orig), 'main.xsd', probes, 'registry-family: ' + name, ctx.pick(6, 16), batch, forced)
 
 
+# =============================================================================================
+#  exhaustive small scope: every ordered pair of wildcard constraint forms, combined by intersection (two
+#  referenced groups / referenced group + local anyAttribute) and by union (extension), three declaration orders
+# =============================================================================================
+def wildcard_pairs(ctx: Ctx, tmp: str) -> None:
+    from harness.lib_c09reg import ATTR_FORMS, ATTR_FORMS_11
+    head = HEAD.replace(' xmlns:b="urn:b"', '')
+    ns = ' xmlns:t="urn:t" xmlns:x="urn:x" xmlns:y="urn:y" xmlns:z="urn:z" xmlns:a="urn:a"'
+    probes = [f'<t:{e}{ns} foo="1" t:foo="1" x:foo="1" y:foo="1" z:foo="1" a:foo="1"/>' for e in 'abce']
+    jobs = [(f1, f2, 'XMLSchema10') for f1 in ATTR_FORMS for f2 in ATTR_FORMS]
+    all11 = ATTR_FORMS + ATTR_FORMS_11
+    jobs += [(f1, f2, 'XMLSchema11') for f1 in all11 for f2 in all11 if f1 in ATTR_FORMS_11 or f2 in ATTR_FORMS_11]
+    if not ctx.quick():
+        jobs += [(f1, f2, 'XMLSchema11') for f1 in ATTR_FORMS for f2 in ATTR_FORMS]
+    for n, (f1, f2, cls) in enumerate(jobs):
+        d = {'G1': f'<xs:attributeGroup name="G1"><xs:anyAttribute {f1} processContents="lax"/></xs:attributeGroup>',
+             'G2': f'<xs:attributeGroup name="G2"><xs:anyAttribute {f2} processContents="lax"/></xs:attributeGroup>',
+             'GA': '<xs:attributeGroup name="GA"><xs:anyAttribute namespace="##any" processContents="lax"/></xs:attributeGroup>',
+             'A': '<xs:complexType name="A"><xs:attributeGroup ref="t:G1"/><xs:attributeGroup ref="t:G2"/></xs:complexType>',
+             'B': '<xs:complexType name="B"><xs:attributeGroup ref="t:GA"/><xs:attributeGroup ref="t:G2"/></xs:complexType>',
+             'C': f'<xs:complexType name="C"><xs:attributeGroup ref="t:G2"/><xs:anyAttribute {f1} processContents="lax"/></xs:complexType>',
+             'BT': f'<xs:complexType name="BT"><xs:anyAttribute {f1} processContents="lax"/></xs:complexType>',
+             'E': '<xs:complexType name="E"><xs:complexContent><xs:extension base="t:BT"><xs:attributeGroup ref="t:G2"/>'
+                  '</xs:extension></xs:complexContent></xs:complexType>',
+             'el': '<xs:element name="a" type="t:A"/><xs:element name="b" type="t:B"/><xs:element name="c" type="t:C"/>'
+                   '<xs:element name="e" type="t:E"/>'}
+        orders = [['G1', 'G2', 'GA', 'A', 'B', 'C', 'BT', 'E', 'el'], ['el', 'E', 'BT', 'C', 'B', 'A', 'GA', 'G2', 'G1'],
+                  ['B', 'E', 'G2', 'C', 'A', 'el', 'BT', 'G1', 'GA']]
+        base = None
+        rejected = []
+        for oi, order in enumerate(orders):
+            root = os.path.join(tmp, f'wp{n}_{oi}')
+            os.makedirs(root)
+            text = head + '\n'.join(d[x] for x in order) + '\n' + TAIL
+            with open(os.path.join(root, 'main.xsd'), 'w') as f:
+                f.write(text)
+            case = {'wildcard-pair': [f1, f2], 'order': order, 'class': cls}
+            files = {'main.xsd': text}
+            try:
+                schema, view = build_real(os.path.join(root, 'main.xsd'), cls=cls)
+            except Exception as e:   # noqa
+                rejected.append((case, files, {'error': type(e).__name__, 'message': norm_text(str(e))[:300]}))
+                continue
+            obs = observe(schema, probes)
+            purity(ctx, case, {'base_files': base[1] if base else files, 'files': files, 'probes': probes, 'open': 'abs'})
+            ctx.case(case, True, tag='wildcard-pair:' + cls)
+            if base is None:
+                base = (obs, files)
+                for p in obs['probes']:
+                    ctx.count('wildcard-pair-probe:%d-of-6-attributes-refused' % min(len(p['errors']), 6))
+            else:
+                dd = diff_obs(base[0], obs)
+                if dd is not None:
+                    ctx.failure('declaration order changes a computed attribute wildcard: ' + dd['what'],
+                                dict(case, base_files=base[1], files=files, probes=probes, open='abs'), dd)
+        if base is None:
+            ctx.count('wildcard-pair: combination refused in every order')
+        else:
+            for case, files, err in rejected:
+                ctx.failure('an order of the declarations is rejected while another order of the same declarations is accepted',
+                            dict(case, base_files=base[1], files=files, probes=probes, open='abs'), err)
+
+
 def header_family(ctx: Ctx, tmp: str, batch: Optional[Batch] = None) -> None:
     from pathlib import Path
     for k, (name, xsd, docs) in enumerate(HEADER_FAMILY):
@@ -1140,11 +1252,17 @@ def arrangements_of(ctx: Ctx, d: str, srcdir: Any, srcname: str, probes: list, r
     import lxml.etree as ET
     main0 = os.path.join(d, 'orig', srcname)
     try:
-        s0, cls = build_any(main0)
+        with Recorder(monitor=True) as rec0:
+            s0, cls = build_any(main0)
     except Exception:   # noqa  (deliberately invalid test schemas, remote imports)
         ctx.count('corpus: base does not build (skipped)')
         return False
     o0 = observe(s0, probes)
+    # purity monitor on the document as it stands
+    ctx.count('purity-monitor:components-fingerprinted', len(rec0.fp2))
+    for m in (rec0.mutations + rec0.after_validation())[:3]:
+        ctx.failure('constructors are not pure: a component that was already built was changed in place (' + m['component'] + ')',
+                    {'corpus': rel, 'class': cls.__name__, 'purity': True, 'probe_files': probes}, m)
     # building twice / pickle / copy of the schema as it stands in the corpus (identity constraints, notations,
     # substitution groups, redefinitions … of the hand-written test schemas)
     if batch is not None:
@@ -1232,6 +1350,7 @@ def run(ctx: Ctx, driver_ok: bool) -> None:
         ill_formed(ctx, drv, batch, tmp)
         header_family(ctx, tmp, batch)
         registry_family(ctx, tmp, batch)
+        wildcard_pairs(ctx, tmp)
         corpus(ctx, tmp, batch)
         flush(ctx, batch, drv)
         n = ctx.pick(70, 700)
@@ -1324,6 +1443,48 @@ def replay(ctx: Ctx, obj: dict) -> int:
     case = obj.get('input') or {}
     if 'corpus' in case and case.get('storage'):
         return replay_corpus_history(case)
+    if case.get('purity') and case.get('corpus'):
+        rel = case['corpus']
+        fam = {('header-family: ' + n): x for n, x, d in HEADER_FAMILY}
+        fam.update({('registry-family: ' + n): x for n, x, d, _ in REGISTRY_FAMILY})
+        tmp = tempfile.mkdtemp(prefix='c09-r-')
+        try:
+            if rel in fam:
+                main = os.path.join(tmp, 'main.xsd')
+                with open(main, 'w') as f:
+                    f.write(fam[rel])
+            else:
+                main = str(REPO / 'tests' / 'test_cases' / rel)
+            with Recorder(monitor=True) as rec:
+                schema, _ = build_any(main)
+            muts = rec.mutations + rec.after_validation()
+            print('REAL CODE, components changed in place after they were built:',
+                  'NONE' if not muts else json.dumps(muts, indent=1)[:3000])
+            return 1 if muts else 0
+        finally:
+            shutil.rmtree(tmp, ignore_errors=True)
+    if case.get('purity') and case.get('files'):
+        tmp = tempfile.mkdtemp(prefix='c09-r-')
+        try:
+            for rel, text in case['files'].items():
+                pth = os.path.join(tmp, rel)
+                os.makedirs(os.path.dirname(pth), exist_ok=True)
+                with open(pth, 'w') as f:
+                    f.write(text)
+            src = open_source(os.path.join(tmp, 'main.xsd'), case.get('open', 'abs'))
+            try:
+                schema, _ = build_real(src, cls=case.get('class', 'XMLSchema10'))
+            except Exception as e:   # noqa
+                print(f'build fails: {type(e).__name__}: {str(e)[:300]}')
+                return 0
+            observe(schema, case.get('probes', []))
+            rec = LAST['rec']
+            muts = rec.mutations + rec.after_validation()
+            print('REAL CODE, components changed in place after they were built:',
+                  'NONE' if not muts else json.dumps(muts, indent=1)[:3000])
+            return 1 if muts else 0
+        finally:
+            shutil.rmtree(tmp, ignore_errors=True)
     if 'files' not in case or 'base_files' not in case or not case['base_files']:
         print('nothing to replay on the real code (broken obligation, see "broken")')
         return 0
